@@ -2285,8 +2285,18 @@ impl Case {
     }
 }
 
-/// evaluate one history
-pub fn eval_case(ops: &[Op], mut drv: Option<&mut Drv>) -> Outcome {
+/// evaluate one history; a panic that escapes (it can only come out of the crate at a place where
+/// the unchanged code cannot panic: an observation, a drop) becomes a finding of that history
+pub fn eval_case(ops: &[Op], drv: Option<&mut Drv>) -> Outcome {
+    match std::panic::catch_unwind(std::panic::AssertUnwindSafe(|| eval_case_raw(ops, drv))) {
+        Ok(o) => o,
+        Err(p) => {
+            let what = format!("while this history was executed and observed a panic came out of the crate at a place where the unchanged code cannot panic: {}", panic_message(&p));
+            Outcome { impl_v: vec![("C09".into(), what.clone()), ("C08".into(), what)], model_v: vec![], transcript: ops.iter().map(|o| o.line()).collect(), stats: Stats::default() }
+        }
+    }
+}
+fn eval_case_raw(ops: &[Op], mut drv: Option<&mut Drv>) -> Outcome {
     let mut c = Case::new();
     let mut transcript = vec![];
     if let Some(d) = drv.as_deref_mut() {
